@@ -17,6 +17,7 @@ permutation.
 from __future__ import annotations
 
 import itertools
+import os
 import pickle
 from pathlib import Path
 
@@ -135,6 +136,37 @@ def scenario(e, cfg):
         CURRENT["fsx"] = fx
         old_pool = DW.Pool
         DW.Pool = make_pool(e, log)
+        # the machine is part of the environment: the number of CPUs, if the code asks for it, is ANY integer >= 1
+        cpus = {}
+
+        def cpu_count(*a, **k):
+            if "n" not in cpus:
+                cpus["n"] = e.fresh_int("cpu_count", 1, None)
+            return cpus["n"]
+
+        class EnvOs:
+            def __getattr__(self, name):
+                if name in ("cpu_count", "process_cpu_count"):
+                    return cpu_count
+                if name == "sched_getaffinity":
+                    return lambda pid=0: range(int(cpu_count()))
+                return getattr(os, name)
+        env_saved = {k: DW.__dict__[k] for k in ("os", "cpu_count", "multiprocessing") if k in DW.__dict__}
+        if "os" in env_saved:
+            DW.os = EnvOs()
+        if "cpu_count" in env_saved:
+            DW.cpu_count = cpu_count
+        if "multiprocessing" in env_saved:
+            mp_real = env_saved["multiprocessing"]
+
+            class EnvMp:
+                def __getattr__(self, name):
+                    if name == "cpu_count":
+                        return cpu_count
+                    if name == "Pool":
+                        return DW.Pool
+                    return getattr(mp_real, name)
+            DW.multiprocessing = EnvMp()
         try:
             with fx:
                 fx.actor = "parent"
@@ -147,8 +179,11 @@ def scenario(e, cfg):
                            dict(kind=f"raised-{type(exc).__name__}"))
         finally:
             DW.Pool = old_pool
+            for k, v in env_saved.items():
+                setattr(DW, k, v)
             CURRENT["fsx"] = None
-        what = f"{W} writers, loads {[(len(a), len(b)) for a, b in loads]}, evaluation order {log[-1][1] if log else None}"
+        what = (f"{W} writers, loads {[(len(a), len(b)) for a, b in loads]}, evaluation order {log[-1][1] if log else None}"
+                + (f", on a machine reporting cpu_count={cpus['n']}" if cpus else ""))
         # (4) results in argument order
         e.prove(results == [("result-of-writer", w, len(tr) + len(te)) for w, (tr, te) in enumerate(loads)],
                 f"{what}: return values {results} are not the writers' results in argument order", dict(kind="results-not-in-argument-order"))
